@@ -57,6 +57,13 @@ Proof.
     cbn; repeat split.
 Qed.
 
+Lemma net_step_tick st d st' : net_step st (NTick d) = Ok st' -> st' = tick_net st d.
+Proof. unfold net_step, tick_net. intros H. inversion H. reflexivity. Qed.
+
+Lemma net_run_skew2 evs st st' a b :
+  net_run st evs = Ok st' -> net_now st' a - net_now st' b = net_now st a - net_now st b.
+Proof. intros H. pose proof (net_run_skew _ _ _ H). destruct a, b; lia. Qed.
+
 Section OneWay.
 Variable x : side.
 Let y := side_other x.
@@ -357,6 +364,196 @@ Proof.
   - subst st'. apply Hsame; apply tick_same.
   - subst st'. apply Hsame; apply rand_same.
   - exfalso. destruct Hd as [-> | ->]; exact Hfe.
+Qed.
+
+(* ---------------------------------------------------------------------------------------- *)
+(* phase 1: the sender will (re)transmit from SND.UNA before its clock passes T1              *)
+(* ---------------------------------------------------------------------------------------- *)
+Definition J1 (u0 dk T1 : Z) (fa : fair_aux) (st : net) : Prop :=
+  Jbase u0 dk fa st /\ net_now st x <= T1 /\
+  (forall e, s_timer (net_sock st x) = TRetransmit e -> e <= T1).
+
+(* phase 2: the segment that starts at SND.UNA is in flight and due at y before y's clock passes T2 *)
+Definition J2 (u0 dk T2 : Z) (fa : fair_aux) (st : net) : Prop :=
+  Jbase u0 dk fa st /\
+  exists i p t, nth_error (chan_to st y) i = Some p /\ nth_error (fa_dl fa y) i = Some (Some t) /\
+                net_now st y <= t /\ t <= T2 /\
+                r_seq_number (snd p) = s_local_seq_no (net_sock st x) /\
+                0 < l_len (r_payload (snd p)) /\ r_ack_number (snd p) <> None.
+
+Lemma chan_y_is_out st : chan_to st y = ep_out (net_get st x).
+Proof. unfold chan_to. rewrite y_is_other. reflexivity. Qed.
+
+Lemma seglen_data r : (r_control r = CNone \/ r_control r = CPsh) -> repr_segment_len r = l_len (r_payload r).
+Proof. intros [E | E]; unfold repr_segment_len; rewrite E; cbn [control_len]; lia. Qed.
+
+Lemma J1_step u0 dk T1 fa st ev st' :
+  0 <= Dt ->
+  oneway_safe st -> oneway_safe st' -> J1 u0 dk T1 fa st -> fair_ev fa st ev -> net_step st ev = Ok st' ->
+  (Qf u0 st' \/ J2 u0 dk (T1 + dk + Dt) (fa_after Dt Da fa ev st') st') \/
+  J1 u0 dk T1 (fa_after Dt Da fa ev st') st'.
+Proof.
+  intros HDt HR HR' (HB & Hclk & Htm) Hfe H.
+  pose proof HB as (HN & Ho & Hsy & Hdk & Hu & Hr & Hl).
+  destruct (base_step _ _ _ _ _ _ HR HR' HB Hfe H) as [HQ | (HB' & Hseq & Hx)]; [left; left; exact HQ|].
+  pose proof HB' as (HN' & Ho' & Hsy' & Hdk' & Hu' & Hr' & Hl').
+  (* the clock of x *)
+  assert (Hclk' : net_now st' x <= T1).
+  { rewrite (net_step_now _ _ _ x H). destruct ev; try lia.
+    destruct Hfe as (Hd0 & Hperm). destruct (Z.eq_dec d 0) as [-> | Hnz]; [lia|].
+    destruct (Hperm ltac:(lia) x) as (Hpp & _). unfold poll_permits, net_poll_at in Hpp.
+    pose proof (NI_live st x HN) as Ix.
+    pose proof (poll_at_ready (ep_cx (net_get st x)) (net_sock st x) Ix
+                  (need_established _ (ow_est st HR x) Hl) (ow_nozwp st HR)
+                  ltac:(intros _; pose proof (ow_win st HR); lia)) as Hpa.
+    unfold net_sock in Hpa.
+    destruct (tcp_poll_at (ep_cx (net_get st x)) (ep_sock (net_get st x))) as [[|t|]|err|]; try contradiction.
+    destruct Hpa as (e & He & Hte). specialize (Htm e He). unfold net_now in *. lia. }
+  destruct Hx as [Htc | (p & e1 & Hout & Hsq & Hsl & Hak & Ht1 & He1)].
+  - (* no emission at SND.UNA: the deadline is where it was, or immediate *)
+    right. split; [exact HB'|]. split; [exact Hclk'|].
+    intros e He. destruct Htc as [Htc | [Htc | Htc]].
+    + apply Htm. rewrite <- Htc. exact He.
+    + rewrite Htc in He. discriminate.
+    + rewrite He in Htc. discriminate.
+  - (* the oldest unacknowledged octets are in flight towards y *)
+    left. right. split; [exact HB'|].
+    set (i := length (chan_to st y)).
+    assert (Hlen' : chan_to st' y = chan_to st y ++ [p]) by (rewrite !chan_y_is_out; exact Hout).
+    exists i, p, (net_now st' y + Dt).
+    split; [rewrite Hlen'; unfold i; rewrite nth_error_app2 by lia; rewrite Nat.sub_diag; reflexivity|].
+    split; [apply (fa_after_dl_new Dt Da fa st ev st' y i Hsy); rewrite Hlen', app_length; cbn [length]; unfold i; lia|].
+    split; [lia|].
+    split.
+    { rewrite (net_step_now _ _ _ y H).
+      assert (Hz : match ev with NTick d => Z.max 0 d | _ => 0 end = 0).
+      { destruct ev; try reflexivity. exfalso.
+        (* a tick emits nothing *)
+        pose proof (net_step_tick _ _ _ H) as Est. subst st'.
+        assert (E : ep_out (net_get (tick_net st d) x) = ep_out (net_get st x)) by apply tick_same.
+        rewrite E in Hout.
+        apply (f_equal (@length packet)) in Hout. rewrite app_length in Hout. cbn [length] in Hout. lia. }
+      rewrite Hz. lia. }
+    (* the segment: a data segment of an ESTABLISHED socket *)
+    assert (Hin : In p (chan_to st' y)) by (rewrite Hlen'; apply in_or_app; right; left; reflexivity).
+    destruct (wire_parse_same (snd p)) as (Wc & Wp & _).
+    destruct (ow_chan st' HR' p Hin) as [(_ & Ha) | (Hc & _ & _)].
+    + exfalso. unfold wire_parse in Ha. cbn [r_ack_number] in Ha. destruct (r_ack_number (snd p)); [discriminate | congruence].
+    + rewrite Wc in Hc. split; [rewrite Hseq; exact Hsq|].
+      split; [rewrite <- (seglen_data _ Hc); exact Hsl | exact Hak].
+Qed.
+
+(* ---------------------------------------------------------------------------------------- *)
+(* phase 2: the delivery of the segment that starts at SND.UNA = RCV.NXT                      *)
+(* ---------------------------------------------------------------------------------------- *)
+Lemma tracked_delivery u0 st i p st' :
+  NI st -> oneway_safe st ->
+  una_off (net_get st x) = u0 -> rcv_off (net_get st y) = u0 ->
+  nth_error (chan_to st y) i = Some p ->
+  r_seq_number (snd p) = s_local_seq_no (net_sock st x) ->
+  0 < l_len (r_payload (snd p)) -> r_ack_number (snd p) <> None ->
+  net_step st (NDeliver y i) = Ok st' ->
+  u0 < rcv_off (net_get st' y).
+Proof.
+  intros HN HR Hu Hr Hn Hsq Hpl Hak H.
+  unfold net_step in H. fold (chan_to st y) in H. rewrite Hn in H.
+  apply obind_ok in H. destruct H as (e' & He & H). inversion H; subst st'; clear H.
+  rewrite net_get_set_same.
+  destruct (ep_step_spec _ _ _ He) as (s' & out & tags & Hs & Hk & _).
+  rewrite (ep_step_rcv_off _ _ _ _ _ _ He Hs) by discriminate.
+  cbn [tcp_step] in Hs. apply obind_ok in Hs. destruct Hs as (((s1 & rp) & tg) & Hi & Hs).
+  assert (E : s1 = s') by (inversion Hs; reflexivity). subst s1.
+  pose proof (nth_error_In _ _ Hn) as Hin.
+  rewrite (ingress_is_process _ _ _ (ow_acc st HR y p Hin)) in Hi. unfold net_sock in Hi.
+  pose proof (NI_live st y HN) as Iy. pose proof (NI_live st x HN) as Ix. unfold net_sock in Iy, Ix.
+  destruct (ow_rcv st HR) as (Hrw & (W & HW & Hwe) & _ & _). fold y in Hrw, Hwe. unfold net_sock in Hrw, Hwe.
+  destruct (wire_parse_same (snd p)) as (Wc & Wp & Wsq).
+  destruct (ow_chan st HR p Hin) as [(_ & Ha) | (Hc & Ha & Hl)]; unfold net_sock in *.
+  { exfalso. unfold wire_parse in Ha. cbn [r_ack_number] in Ha. destruct (r_ack_number (snd p)); [discriminate | congruence]. }
+  destruct (ow_cross st HR) as (Hcr & _). fold y in Hcr. unfold net_sock in Hcr.
+  rewrite Hu, Hr, Z.sub_diag in Hcr.
+  assert (Hux : u32 (s_local_seq_no (ep_sock (net_get st x)))) by apply (li_una _ Ix).
+  assert (Ews : tcp_window_start (ep_sock (net_get st y)) = s_local_seq_no (ep_sock (net_get st x)))
+    by (rewrite Hcr; symmetry; apply u32_sq_self; exact Hux).
+  assert (Hseq : r_seq_number (wire_parse (snd p)) = tcp_window_start (ep_sock (net_get st y))).
+  { rewrite Wsq, Hsq, Ews. apply TcpRecvBase.seq_norm_small. unfold u32 in Hux. change (2 ^ 32) with 4294967296 in Hux. exact Hux. }
+  assert (Hpl' : 0 < l_len (r_payload (wire_parse (snd p))) <= p30) by (rewrite Wp in *; unfold TcpRecvWindow.p30; lia).
+  assert (Huy : 0 <= s_local_seq_no (ep_sock (net_get st y)) < 4294967296) by apply (li_una _ Iy).
+  pose proof (ow_ytx st HR) as Hytx. fold y in Hytx. unfold net_sock in Hytx.
+  assert (Htx31 : 0 <= rb_len (s_tx_buffer (ep_sock (net_get st y))) < 2147483648) by lia.
+  pose proof (ow_est st HR y) as Hst. unfold net_sock in Hst.
+  destruct (process_in_order _ _ _ _ _ _ _ W Hst Hrw Hwe HW Hseq Hpl' Hc Ha Huy Htx31 Hi)
+    as (m & Hm & L & _).
+  rewrite L. unfold TcpRecvWindow.p30 in *. lia.
+Qed.
+
+Lemma J2_step u0 dk T2 fa st ev st' :
+  oneway_safe st -> oneway_safe st' -> J2 u0 dk T2 fa st -> fair_ev fa st ev -> net_step st ev = Ok st' ->
+  Qf u0 st' \/ J2 u0 dk T2 (fa_after Dt Da fa ev st') st'.
+Proof.
+  intros HR HR' (HB & i & p & t & Hn & Hdl & Hnow & HtT & Hsq & Hpl & Hak) Hfe H.
+  pose proof HB as (HN & Ho & Hsy & Hdk & Hu & Hr & Hl).
+  (* the tracked delivery itself *)
+  destruct (match ev with NDeliver to j => if side_eqb to y then Nat.eqb j i else false | _ => false end) eqn:Htr.
+  { destruct ev; try discriminate. destruct (side_eqb to y) eqn:Es; [|discriminate].
+    apply side_eqb_true in Es. apply Nat.eqb_eq in Htr. subst to i0.
+    left. left. apply (tracked_delivery u0 st i p st' HN HR Hu Hr Hn Hsq Hpl Hak H). }
+  destruct (base_step _ _ _ _ _ _ HR HR' HB Hfe H) as [HQ | (HB' & Hseq & _)]; [left; exact HQ|].
+  right. split; [exact HB'|].
+  exists i, p, t.
+  split; [apply (fair_step_nth fa st ev st' y i p Hfe H Hn)|].
+  split.
+  { apply fa_after_dl_keep; [exact Hdl|]. intros to E Eto. subst ev to.
+    rewrite side_eqb_refl, Nat.eqb_refl in Htr. discriminate. }
+  split.
+  { rewrite (net_step_now _ _ _ y H). destruct ev; try lia.
+    apply (tick_respects_dl fa st d y i t Hfe Hdl Hnow). }
+  split; [exact HtT|]. split; [rewrite Hseq; exact Hsq|]. split; assumption.
+Qed.
+
+(* ---------------------------------------------------------------------------------------- *)
+(* STEP 2                                                                                    *)
+(* ---------------------------------------------------------------------------------------- *)
+(* Both sockets ESTABLISHED, x has unacknowledged octets and y's RCV.NXT stands exactly at x's
+   SND.UNA (the oldest unacknowledged octet has not reached y, or was lost).  On every fair run on
+   which the safety facts [oneway_safe] hold, before x's clock has advanced by more than
+   RTTE_MAX_RTO + Dt the run passes through a state in which y has accepted that octet
+   (rcv_off y > u0) - via the retransmission timer (bounded by RTTE_MAX_RTO: tcp-c02), the
+   retransmission from SND.UNA, its delivery within Dt, and the acceptance of an in-window,
+   in-sequence segment. *)
+Theorem retransmission_eventually_delivered : forall evs fa st st' u0,
+  0 <= Dt ->
+  NI st -> opts_ok st -> dl_sync fa st ->
+  run_all oneway_safe st evs -> fair_run Dt Da fa st evs -> net_run st evs = Ok st' ->
+  0 < txl st -> una_off (net_get st x) = u0 -> rcv_off (net_get st y) = u0 ->
+  net_now st x + max_rto_us + Dt < net_now st' x ->
+  exists pre post st1, evs = pre ++ post /\ net_run st pre = Ok st1 /\ net_run st1 post = Ok st' /\
+                       Qf u0 st1.
+Proof.
+  intros evs fa st st' u0 HDt HN Ho Hsy HRun Hfair Hrun Hl Hu Hr Hlate.
+  set (dk := net_now st y - net_now st x).
+  set (T1 := net_now st x + max_rto_us).
+  assert (HJ1 : J1 u0 dk T1 fa st).
+  { unfold J1, Jbase. split; [split; [exact HN|]; split; [exact Ho|]; split; [exact Hsy|]; split; [reflexivity|];
+                                 split; [exact Hu|]; split; [exact Hr | exact Hl]|].
+    split; [unfold T1; pose proof max_rto_us_pos; lia|].
+    intros e He. destruct (HN x) as (_ & _ & (_ & Hb) & _). unfold net_sock in He. rewrite He in Hb. exact Hb. }
+  destruct (fair_leads_under Dt Da oneway_safe (J1 u0 dk T1)
+              (fun fa st => Qf u0 st \/ J2 u0 dk (T1 + dk + Dt) fa st) x T1
+              ltac:(intros fa0 st0 (_ & H0 & _); exact H0)
+              ltac:(intros fa0 st0 ev0 st0' R0 R0' J0 F0 S0; exact (J1_step _ _ _ _ _ _ _ HDt R0 R0' J0 F0 S0))
+              evs fa st st' HJ1 HRun Hfair Hrun ltac:(unfold T1; lia))
+    as (pre & post & fa1 & st1 & -> & Hp1 & Hp2 & HR1 & Hf1 & [HQ | HJ2]).
+  { exists pre, post, st1. auto. }
+  assert (Hdk' : net_now st' y - net_now st' x = dk).
+  { unfold dk. apply (net_run_skew2 _ _ _ y x Hrun). }
+  destruct (fair_leads_under Dt Da oneway_safe (J2 u0 dk (T1 + dk + Dt)) (fun _ st => Qf u0 st) y (T1 + dk + Dt)
+              ltac:(intros fa0 st0 (_ & i0 & p0 & t0 & _ & _ & A & B & _); lia)
+              ltac:(intros fa0 st0 ev0 st0' R0 R0' J0 F0 S0; exact (J2_step _ _ _ _ _ _ _ R0 R0' J0 F0 S0))
+              post fa1 st1 st' HJ2 HR1 Hf1 Hp2 ltac:(unfold T1 in *; lia))
+    as (pre2 & post2 & fa2 & st2 & -> & Hq1 & Hq2 & _ & _ & HQ).
+  exists (pre ++ pre2), post2, st2. split; [rewrite app_assoc; reflexivity|].
+  split; [eapply net_run_app; eassumption|]. split; assumption.
 Qed.
 
 End OneWay.
